@@ -8,8 +8,9 @@ import subprocess
 import sys
 
 VERIF = "/verif"
-WT = "/tmp/seedrepo"
-EXTRA = {"C13": ["C25"], "C35": ["C36"], "C02": ["C38"], "C21": ["C22"], "C14": ["C16"], "C20": ["C19"], "C25": ["C19"], "C11": ["C22"]}
+WT = os.environ.get("SEED_WT", "/tmp/seedrepo")
+EXTRA = {"C13": ["C25"], "C35": ["C36"], "C02": ["C38"], "C21": ["C22", "C19"], "C14": ["C16"], "C20": ["C19"], "C25": ["C19"],
+         "C11": ["C22"], "C19": ["C20"], "C27": ["C42"]}
 
 
 def sh(cmd, **kw):
@@ -40,11 +41,12 @@ def main():
                 print(sid, "DOES NOT APPLY")
                 continue
             res = {"applies": True, "applied_with": how, "checks": {}}
-            for chk in [prop] + EXTRA.get(prop, []):
+            only = [c for c in os.environ.get("SEED_CHECKS", "").split(",") if c]
+            for chk in (only or [prop] + EXTRA.get(prop, [])):
                 if chk not in claimed:
                     res["checks"][chk] = "not claimed"
                     continue
-                env = dict(os.environ, VERIF_REPO=WT, VERIF_EVIDENCE_DIR="/tmp/seed_evidence")
+                env = dict(os.environ, VERIF_REPO=WT, VERIF_EVIDENCE_DIR="/tmp/seed_evidence" + WT.replace("/", "_"))
                 p = subprocess.run(["./check", chk, "--tier", "quick"], cwd=VERIF, env=env, capture_output=True, text=True)
                 viol = [l for l in p.stdout.splitlines() if l.startswith("VIOLATION")]
                 res["checks"][chk] = {"exit": p.returncode, "violations": len(viol)}
